@@ -7,6 +7,7 @@ import (
 	"go/types"
 	"sort"
 	"strings"
+	"time"
 
 	"golang.org/x/tools/go/ssa"
 )
@@ -2799,6 +2800,36 @@ func ruleConfigUpdateExclusive(c *Ctx, r *Reporter) {
 		}
 	})
 	if cb == nil {
+		// the callback is handed to a same-receiver helper that calls it: the lockset at the helper's call of the
+		// callback includes what every caller of the helper holds
+		AllInstrs(fn, false, func(_ *ssa.Function, ins ssa.Instruction) {
+			call, ok := ins.(*ssa.Call)
+			if !ok || cb != nil {
+				return
+			}
+			h := call.Call.StaticCallee()
+			if h == nil || len(h.Blocks) == 0 || recvTypeName(h) != recvTypeName(fn) {
+				return
+			}
+			passes := false
+			for _, a := range call.Call.Args {
+				if p, isP := a.(*ssa.Parameter); isP && p.Parent() == fn && strings.HasPrefix(p.Type().String(), "func") {
+					passes = true
+				}
+			}
+			if !passes {
+				return
+			}
+			AllInstrs(h, false, func(_ *ssa.Function, x ssa.Instruction) {
+				if c2, ok := x.(*ssa.Call); ok {
+					if p, isP := c2.Call.Value.(*ssa.Parameter); isP && p.Parent() == h {
+						cb = c2
+					}
+				}
+			})
+		})
+	}
+	if cb == nil {
 		r.Undecided(cons, c.FnPos(fn), "the update callback is not called directly")
 		return
 	}
@@ -3637,12 +3668,40 @@ func ruleTableSeekAlwaysAsksIndex(c *Ctx, r *Reporter) {
 		}
 		exits = append(exits, ret)
 	}
+	positions := func(f *ssa.Function, target ssa.Value) func(i ssa.Instruction) bool {
+		return func(i ssa.Instruction) bool {
+			call, ok := i.(*ssa.Call)
+			if !ok || call.Call.StaticCallee() == nil || !strings.HasPrefix(call.Call.StaticCallee().Name(), "Seek") || len(call.Call.Args) < 2 {
+				return false
+			}
+			return isLoadOfField(call.Call.Args[0], idxF) && call.Call.Args[1] == target
+		}
+	}
 	bad, path := MustPass(fn, exits, func(i ssa.Instruction) bool {
+		if positions(fn, fn.Params[1])(i) {
+			return true
+		}
+		// a same-receiver helper that is given the target and positions the index with it on every path
 		call, ok := i.(*ssa.Call)
-		if !ok || call.Call.StaticCallee() == nil || !strings.HasPrefix(call.Call.StaticCallee().Name(), "Seek") || len(call.Call.Args) < 2 {
+		if !ok {
 			return false
 		}
-		return isLoadOfField(call.Call.Args[0], idxF) && call.Call.Args[1] == ssa.Value(fn.Params[1])
+		h := call.Call.StaticCallee()
+		if h == nil || len(h.Blocks) == 0 || recvTypeName(h) != recvTypeName(fn) || len(call.Call.Args) < 2 {
+			return false
+		}
+		for k, a := range call.Call.Args {
+			if a == ssa.Value(fn.Params[1]) && k < len(h.Params) {
+				var rets []ssa.Instruction
+				for _, ret := range Returns(h) {
+					rets = append(rets, ret)
+				}
+				if miss, _ := MustPass(h, rets, positions(h, h.Params[k])); miss == nil {
+					return true
+				}
+			}
+		}
+		return false
 	})
 	if bad != nil {
 		r.Bad(cons, c.InsPos(bad), "Seek can answer without having asked the index for the target: the answer then comes from whatever block an earlier call left loaded — a backward seek across a block boundary lands on the first key of the loaded block and skips every entry in between", c.PathString(path)...)
@@ -5004,5 +5063,888 @@ func ruleServiceSuccessOnlyAfterEngine(c *Ctx, r *Reporter) {
 			continue
 		}
 		r.OK(cons, c.FnPos(fn), fmt.Sprintf("%d success exit(s), each behind the embedded %s", len(exits), row[1]))
+	}
+}
+
+// ruleDefaultRegistryLimits (round 9): the default registry (the one the server command wires in) carries two limits — an
+// idle limit and a lifetime limit. The idle limit must be the smaller one, otherwise it can never fire before the
+// lifetime limit does and an abandoned transaction keeps the database lock for its whole lifetime. The constants are
+// followed through a delegating constructor (two time.Duration parameters in a row are easily swapped).
+func ruleDefaultRegistryLimits(c *Ctx, r *Reporter) {
+	r.Rule("default-idle-limit-below-lifetime-limit", 1)
+	fn := c.Func("pkg/transaction", "", "NewRegistry")
+	ttlF := c.Field("pkg/transaction", "RegistryImpl", "txTTL")
+	idleF := c.Field("pkg/transaction", "RegistryImpl", "idleTxTTL")
+	cons := "transaction.NewRegistry:limits"
+	if fn == nil || ttlF == nil || idleF == nil {
+		r.Unresolved("transaction.NewRegistry / RegistryImpl.{txTTL,idleTxTTL}", "not found")
+		return
+	}
+	var limits func(f *ssa.Function, args []ssa.Value, d int) (ttl, idle int64, okT, okI bool)
+	limits = func(f *ssa.Function, args []ssa.Value, d int) (ttl, idle int64, okT, okI bool) {
+		if d > 3 {
+			return
+		}
+		val := func(v ssa.Value) (int64, bool) {
+			v = stripConv(v)
+			if k, isK := constInt(v); isK {
+				return k, true
+			}
+			if p, ok := v.(*ssa.Parameter); ok && args != nil {
+				for i, fp := range f.Params {
+					if fp == p && i < len(args) {
+						if k, isK := constInt(stripConv(args[i])); isK {
+							return k, true
+						}
+					}
+				}
+			}
+			return 0, false
+		}
+		AllInstrs(f, false, func(_ *ssa.Function, ins ssa.Instruction) {
+			switch x := ins.(type) {
+			case *ssa.Store:
+				switch fieldVarOf(x.Addr) {
+				case ttlF:
+					ttl, okT = val(x.Val)
+				case idleF:
+					idle, okI = val(x.Val)
+				}
+			case *ssa.Call:
+				if g := x.Call.StaticCallee(); g != nil && g != f && len(g.Blocks) > 0 && pkgOf(g) == "pkg/transaction" && !okT && !okI {
+					var actual []ssa.Value
+					for _, a := range x.Call.Args {
+						if k, isK := val(a); isK {
+							actual = append(actual, ssa.NewConst(constant.MakeInt64(k), types.Typ[types.Int64]))
+						} else {
+							actual = append(actual, a)
+						}
+					}
+					t, i, a, b := limits(g, actual, d+1)
+					if a && b {
+						ttl, idle, okT, okI = t, i, a, b
+					}
+				}
+			}
+		})
+		return
+	}
+	ttl, idle, okT, okI := limits(fn, nil, 0)
+	if !okT || !okI {
+		r.Undecided(cons, c.FnPos(fn), "the default limits could not be resolved to constants")
+		return
+	}
+	r.Check(idle > 0 && idle < ttl, cons, c.FnPos(fn), fmt.Sprintf("idle limit %s < lifetime limit %s", time.Duration(idle), time.Duration(ttl)),
+		fmt.Sprintf("the default registry's idle limit (%s) is not below its lifetime limit (%s): the idle check can never fire first — an abandoned transaction holds the database lock until the lifetime limit instead of the idle limit (or, the other way round, every transaction is cut off at what was meant to be the idle limit)", time.Duration(idle), time.Duration(ttl)))
+}
+
+// ruleOverlapScansVisitEveryFile (round 9): the files of a level are kept in file-number order (and the numbers restart at
+// every compaction), not in key order — "the overlapping files are neighbours" is false. A loop of the compaction
+// strategy that collects the files overlapping a key range must look at every file of the level: leaving it early
+// leaves an overlapping file out of the task, the output lands below it, and (tombstones being dropped at the deep
+// levels) the old value in the skipped file becomes visible again.
+func ruleOverlapScansVisitEveryFile(c *Ctx, r *Reporter) {
+	r.Rule("overlap-scans-visit-every-file", 2)
+	for _, fn := range c.KevoFns {
+		if pkgOf(fn) != "pkg/compaction" || fn.Parent() != nil {
+			continue
+		}
+		for _, l := range GenericLoops(fn) {
+			// a collecting loop: calls Overlaps and appends inside
+			var ov ssa.Instruction
+			appends := false
+			for _, b := range fn.Blocks {
+				if !l.Contains(b) {
+					continue
+				}
+				for _, ins := range b.Instrs {
+					if call, ok := ins.(*ssa.Call); ok {
+						if f := call.Call.StaticCallee(); f != nil && (f.Name() == "Overlaps" || f.Name() == "overlaps") {
+							ov = ins
+						}
+						if bi, ok := call.Call.Value.(*ssa.Builtin); ok && bi.Name() == "append" {
+							appends = true
+						}
+					}
+				}
+			}
+			if ov == nil || !appends {
+				continue
+			}
+			// innermost loop containing the Overlaps call only
+			inner := true
+			for _, l2 := range GenericLoops(fn) {
+				if l2.Header != l.Header && l.Contains(l2.Header) && l2.Contains(ov.Block()) {
+					inner = false
+				}
+			}
+			if !inner {
+				continue
+			}
+			cons := FnName(fn) + ":overlap-loop@" + Path(ov.(*ssa.Call).Call.Args[len(ov.(*ssa.Call).Call.Args)-1])
+			var early *ssa.BasicBlock
+			for _, b := range fn.Blocks {
+				if !l.Contains(b) || b == l.Header {
+					continue
+				}
+				for _, s := range b.Succs {
+					if !l.Contains(s) {
+						early = b
+					}
+				}
+			}
+			if early != nil {
+				r.Bad(cons, c.blockPos(early), "the loop that collects overlapping files can be left before every file of the level has been examined: a level is ordered by file number, not by key, so an overlapping file can sit behind a non-overlapping one — it is left out of the compaction, the merged output lands below it and the older version it holds (a value whose delete marker was dropped at the deep level) is read again")
+				continue
+			}
+			r.OK(cons, c.blockPos(l.Header), "the loop ends only when the level is exhausted")
+		}
+	}
+}
+
+// ruleReadersClosedOnlyWhenIdle (round 9): a compaction cycle reads its input tables through readers the strategy owns;
+// sstable iterators swallow fetch errors and simply end. Closing those readers while a cycle runs makes every input
+// iterator end where it stands — the merge "succeeds" with a truncated output and the inputs are deleted. The cycle
+// holds compactingMu for its whole length, so whoever closes the strategy's readers must hold compactingMu exclusively.
+func ruleReadersClosedOnlyWhenIdle(c *Ctx, r *Reporter) {
+	r.Rule("readers-closed-only-when-no-cycle-runs", 1)
+	li := c.Locks()
+	n := 0
+	for _, fn := range c.KevoFns {
+		if pkgOf(fn) != "pkg/compaction" || recvTypeName(fn) != "compaction.DefaultCompactionCoordinator" {
+			continue
+		}
+		AllInstrs(fn, false, func(_ *ssa.Function, ins ssa.Instruction) {
+			call, ok := ins.(ssa.CallInstruction)
+			if !ok || !call.Common().IsInvoke() || call.Common().Method.Name() != "Close" || !strings.Contains(call.Common().Value.Type().String(), "CompactionStrategy") {
+				return
+			}
+			n++
+			held := li.HeldAt(ins)
+			cons := FnName(fn) + ":strategy.Close"
+			r.Check(held.Holds("compaction.DefaultCompactionCoordinator.compactingMu", "W"), cons, c.InsPos(ins), "the strategy's readers are closed with compactingMu held",
+				"the strategy's table readers are closed without compactingMu (held: "+held.String()+"): a compaction cycle that is running holds that lock, not this one — its input iterators end silently where they stand when their reader is closed, the merge writes a truncated output and the cycle then deletes the inputs: keys are lost from disk, overwritten keys revert, deleted keys return")
+		})
+	}
+	if n == 0 {
+		r.Undecided("compaction.DefaultCompactionCoordinator:strategy.Close", "-", "no call of the strategy's Close found in the coordinator")
+	}
+}
+
+// ruleSessionLookupsNilChecked (round 9): a replica's session can be unregistered at any moment (its stream ends, the
+// heartbeat monitor drops it), so a lookup in Primary.sessions may answer nil even right after an ID was resolved from
+// the same map. The handlers run inside the primary's gRPC server, where a nil dereference is not recovered — it ends
+// the primary process. Every use of a looked-up session (as receiver, argument or dereference) lies behind a nil test
+// of that value (or the comma-ok form).
+func ruleSessionLookupsNilChecked(c *Ctx, r *Reporter) {
+	r.Rule("session-lookups-are-nil-checked", 2)
+	sf := c.Field("pkg/replication", "Primary", "sessions")
+	if sf == nil {
+		r.Unresolved("replication.Primary.sessions", "not found")
+		return
+	}
+	isSessLookup := func(v ssa.Value) (*ssa.Lookup, bool) {
+		lk, ok := v.(*ssa.Lookup)
+		if !ok {
+			return nil, false
+		}
+		return lk, isLoadOfField(lk.X, sf)
+	}
+	// getters: functions whose every return hands out a plain lookup
+	getters := map[*ssa.Function]bool{}
+	for _, fn := range c.KevoFns {
+		if pkgOf(fn) != "pkg/replication" || fn.Signature.Results().Len() != 1 {
+			continue
+		}
+		all := len(Returns(fn)) > 0
+		for _, ret := range Returns(fn) {
+			lk, ok := isSessLookup(ReturnValue(ret, 0))
+			if !ok || lk.CommaOk {
+				all = false
+			}
+		}
+		if all {
+			getters[fn] = true
+		}
+	}
+	for _, fn := range c.KevoFns {
+		if pkgOf(fn) != "pkg/replication" {
+			continue
+		}
+		AllInstrs(fn, false, func(_ *ssa.Function, ins ssa.Instruction) {
+			var v ssa.Value
+			var okV ssa.Value // comma-ok flag, if any
+			switch x := ins.(type) {
+			case *ssa.Lookup:
+				if _, is := isSessLookup(x); !is {
+					return
+				}
+				if ex, ok := x.Index.(*ssa.Extract); ok { // keyed by the key of a range over the same map: the entry exists
+					if nx, ok := ex.Tuple.(*ssa.Next); ok {
+						if rg, ok := nx.Iter.(*ssa.Range); ok && isLoadOfField(rg.X, sf) {
+							return
+						}
+					}
+				}
+				if x.CommaOk {
+					for _, ref := range *x.Referrers() {
+						if ex, ok := ref.(*ssa.Extract); ok {
+							if ex.Index == 0 {
+								v = ex
+							} else {
+								okV = ex
+							}
+						}
+					}
+				} else {
+					v = x
+				}
+			case *ssa.Call:
+				if f := x.Call.StaticCallee(); f != nil && getters[f] {
+					v = x
+				}
+			}
+			if v == nil || v.Referrers() == nil {
+				return
+			}
+			safe := func(cond ssa.Value) (bool, bool) {
+				if okV != nil {
+					if cond == okV {
+						return true, false
+					}
+					if u, ok := cond.(*ssa.UnOp); ok && u.Op == token.NOT && u.X == okV {
+						return false, true
+					}
+				}
+				t, trueIsNonNil, ok := nilTest(cond)
+				if !ok || t != v {
+					return false, false
+				}
+				if trueIsNonNil {
+					return true, false
+				}
+				return false, true
+			}
+			cons := FnName(fn) + ":session@" + Path(v)
+			var bad ssa.Instruction
+			for _, ref := range *v.Referrers() {
+				switch u := ref.(type) {
+				case *ssa.BinOp, *ssa.Return, *ssa.Phi, *ssa.Store, *ssa.MapUpdate, *ssa.MakeInterface, *ssa.DebugRef, *ssa.Extract:
+					continue // comparisons, hand-ons
+				case ssa.CallInstruction:
+					if bi, ok := u.Common().Value.(*ssa.Builtin); ok && bi.Name() != "" {
+						continue
+					}
+				}
+				if !GuardedBy(ref.Block(), safe) {
+					bad = ref
+				}
+			}
+			if bad != nil {
+				r.Bad(cons, c.InsPos(bad), "a session looked up in Primary.sessions is used without a nil test of the lookup's answer: sessions are unregistered concurrently (stream end, heartbeat drop), so the answer can be nil even right after the ID was resolved — a nil dereference inside a gRPC handler is not recovered and ends the primary process")
+				return
+			}
+			r.OK(cons, c.InsPos(ins), "every use lies behind a nil test (or comma-ok) of the lookup")
+		})
+	}
+}
+
+// ruleHeartbeatMonitorAlwaysStarts (round 9): the heartbeat manager's loop does two things — it sends keep-alives and it
+// drops sessions that have been silent for too long. start() may decline only because the loop already runs; declining
+// for a configuration reason ("heartbeats disabled") also switches off the drop, and a replica that went silent with
+// its stream still open stays in the topology, is pushed to and pins log retention for ever.
+func ruleHeartbeatMonitorAlwaysStarts(c *Ctx, r *Reporter) {
+	r.Rule("heartbeat-monitor-always-starts", 1)
+	fn := c.Func("pkg/replication", "heartbeatManager", "start")
+	run := c.Field("pkg/replication", "heartbeatManager", "running")
+	cons := "replication.heartbeatManager.start"
+	if fn == nil || run == nil {
+		r.Unresolved(cons+" / heartbeatManager.running", "not found")
+		return
+	}
+	running := func(cond ssa.Value) (bool, bool) {
+		if isLoadOfField(cond, run) {
+			return true, false
+		}
+		return false, false
+	}
+	var rets []ssa.Instruction
+	for _, ret := range Returns(fn) {
+		rets = append(rets, ret)
+	}
+	bad, path := MustPassE(fn, rets, func(i ssa.Instruction) bool {
+		_, isGo := i.(*ssa.Go)
+		return isGo
+	}, PruneFactEdges(running))
+	if bad != nil {
+		r.Bad(cons, c.InsPos(bad), "start() can return without launching the monitor loop although it is not running: the loop is also what drops silent sessions (inactivity timeout), so a replica that stops responding with its stream still open is never removed from the topology", c.PathString(path)...)
+		return
+	}
+	r.OK(cons, c.FnPos(fn), "the only way past the launch is 'already running'")
+}
+
+// ruleApplierStartsBehindItsPosition (round 9): a batch applier created for a replica that resumes at sequence N has
+// applied N and expects N+1. If the two fields disagree at construction (expected = 1 with applied = N — a shadowed
+// variable is enough), the replica asks the primary for the log from the start and applies 1..N a second time on top of
+// the state after N. The value stored to expectedNextSeq in NewWALBatchApplier is startSeq+1 (the constant 1 may appear
+// only as the alternative for startSeq == 0, where it is the same number).
+func ruleApplierStartsBehindItsPosition(c *Ctx, r *Reporter) {
+	r.Rule("applier-expects-the-successor-of-its-start", 1)
+	fn := c.Func("pkg/replication", "", "NewWALBatchApplier")
+	exp := c.Field("pkg/replication", "WALBatchApplier", "expectedNextSeq")
+	cons := "replication.NewWALBatchApplier:expectedNextSeq"
+	if fn == nil || exp == nil || len(fn.Params) < 1 {
+		r.Unresolved("replication.NewWALBatchApplier / WALBatchApplier.expectedNextSeq", "not found")
+		return
+	}
+	p := ssa.Value(fn.Params[0])
+	var st *ssa.Store
+	AllInstrs(fn, false, func(_ *ssa.Function, ins ssa.Instruction) {
+		if s, ok := ins.(*ssa.Store); ok && fieldVarOf(s.Addr) == exp {
+			st = s
+		}
+	})
+	if st == nil {
+		r.Bad(cons, c.FnPos(fn), "the constructor does not set expectedNextSeq: a resumed applier expects sequence 0")
+		return
+	}
+	succ, other := 0, 0
+	var leaves func(v ssa.Value, d int)
+	leaves = func(v ssa.Value, d int) {
+		v = stripConv(v)
+		if d > 5 {
+			other++
+			return
+		}
+		switch x := v.(type) {
+		case *ssa.Phi:
+			for _, e := range x.Edges {
+				leaves(e, d+1)
+			}
+			return
+		case *ssa.BinOp:
+			if x.Op == token.ADD {
+				a, b := stripConv(x.X), stripConv(x.Y)
+				if k, isK := constInt(b); isK && k == 1 && a == p {
+					succ++
+					return
+				}
+				if k, isK := constInt(a); isK && k == 1 && b == p {
+					succ++
+					return
+				}
+			}
+		case *ssa.Const:
+			if k, isK := constInt(x); isK && k == 1 {
+				return // the startSeq == 0 alternative
+			}
+		}
+		other++
+	}
+	leaves(st.Val, 0)
+	r.Check(succ > 0 && other == 0, cons, c.InsPos(st), "expectedNextSeq = startSeq + 1",
+		"the value stored to expectedNextSeq is not startSeq+1 on the resuming path ("+Path(st.Val)+"): an applier created for a replica that resumes at N holds 'applied N' and 'expects something else' — the replica requests the log from there and re-applies entries it already has, on top of the state after N")
+}
+
+// ruleSenderSendsWhatIsInTheLog (round 9): whatever the primary's log holds was accepted by the primary and has to reach the
+// replica; the senders skip an entry they cannot convert and the replica then sees a hole it can never get past. The
+// conversion of a log entry for the wire (WALEntryToProto, SerializeWALEntry) may therefore not refuse an entry because
+// of its SIZE: no failing exit decided by a comparison on the length of the payload, key or value.
+func ruleSenderSendsWhatIsInTheLog(c *Ctx, r *Reporter) {
+	r.Rule("sender-converts-every-log-entry", 2)
+	isLen := func(v ssa.Value) bool { return lenArgOf(v) != nil }
+	for _, name := range []string{"WALEntryToProto", "SerializeWALEntry"} {
+		fn := c.Func("pkg/replication", "", name)
+		cons := "replication." + name
+		if fn == nil {
+			r.Unresolved(cons, "not found")
+			continue
+		}
+		sizeTest := func(cond ssa.Value) (bool, bool) {
+			bo, ok := cond.(*ssa.BinOp)
+			if !ok {
+				return false, false
+			}
+			switch bo.Op {
+			case token.LSS, token.GTR, token.LEQ, token.GEQ:
+			default:
+				return false, false
+			}
+			for _, o := range []ssa.Value{bo.X, bo.Y} {
+				if k, isK := constInt(o); isK && k <= 1 {
+					return false, false
+				}
+			}
+			if flowsFromPred(bo.X, isLen, 0, map[ssa.Value]bool{}) || flowsFromPred(bo.Y, isLen, 0, map[ssa.Value]bool{}) {
+				return true, true
+			}
+			return false, false
+		}
+		var bad ssa.Instruction
+		n := 0
+		for _, ret := range Returns(fn) {
+			if ClassifyReturn(ret) == ExitSuccess {
+				continue
+			}
+			n++
+			if GuardedBy(ret.Block(), sizeTest) {
+				bad = ret
+			}
+		}
+		if bad != nil {
+			r.Bad(cons, c.InsPos(bad), "the conversion of a log entry for the wire fails on a comparison of a length: the senders skip an entry they cannot convert, the batch goes out with a hole, the replica answers 'gap', asks again and gets the same hole — the entry and everything written after it never replicate")
+		} else {
+			r.OK(cons, c.FnPos(fn), fmt.Sprintf("none of the %d failing exits is decided by a size", n))
+		}
+	}
+}
+
+// ruleEveryStateChangeIsRecorded (round 9): the replica's reconnect back-off is computed from the time of the latest recorded
+// transition into the current state (GetStateDuration, falling back to the tracker's creation time). A function of the
+// state tracker that changes currentState without appending the transition (or resetting the history together with
+// the start time) makes that duration the replica's uptime; the pause before every reconnect — and this replica
+// reconnects after every batch — grows to its 60 s cap.
+func ruleEveryStateChangeIsRecorded(c *Ctx, r *Reporter) {
+	r.Rule("every-state-change-is-recorded", 2)
+	cur := c.Field("pkg/replication", "StateTracker", "currentState")
+	var hist *types.Var
+	if n := c.Named("pkg/replication", "StateTracker"); n != nil {
+		if st, ok := n.Underlying().(*types.Struct); ok {
+			for i := 0; i < st.NumFields(); i++ {
+				if strings.HasPrefix(st.Field(i).Name(), "transitions") {
+					hist = st.Field(i)
+				}
+			}
+		}
+	}
+	if cur == nil || hist == nil {
+		r.Unresolved("replication.StateTracker.{currentState,transitions}", "not found")
+		return
+	}
+	for _, fn := range c.KevoFns {
+		if pkgOf(fn) != "pkg/replication" || recvTypeName(fn) != "replication.StateTracker" || fn.Parent() != nil {
+			continue
+		}
+		var stores []ssa.Instruction
+		AllInstrs(fn, false, func(_ *ssa.Function, ins ssa.Instruction) {
+			if st, ok := ins.(*ssa.Store); ok && fieldVarOf(st.Addr) == cur {
+				stores = append(stores, ins)
+			}
+		})
+		if len(stores) == 0 {
+			continue
+		}
+		cons := FnName(fn)
+		recorded := false
+		for _, h := range withSameReceiverHelpers(fn) {
+			if st, ok := h.ins.(*ssa.Store); ok && fieldVarOf(st.Addr) == hist {
+				// on the path of every state store? judged by dominance either way round (append before or after)
+				for _, s := range stores {
+					if Dominates(h.at, s) || Dominates(s, h.at) {
+						recorded = true
+					}
+				}
+			}
+		}
+		r.Check(recorded, cons, c.InsPos(stores[0]), "the state change is accompanied by a write of the transition history",
+			"the tracker's state changes without the transition being recorded: GetStateDuration finds no entry into the new state and answers with the time since the tracker was created — the reconnect back-off computed from it grows with the replica's uptime up to its cap, and a catch-up that needs many reconnects takes a minute per hundred entries")
+	}
+}
+
+// chanFieldOf: the struct field a channel value was loaded from (directly, or via a MakeChan that the same function
+// stores into the field).
+func chanFieldOf(v ssa.Value) *types.Var {
+	switch x := v.(type) {
+	case *ssa.UnOp:
+		if x.Op == token.MUL {
+			return fieldVarOf(x.X)
+		}
+	case *ssa.MakeChan:
+		if x.Referrers() != nil {
+			for _, ref := range *x.Referrers() {
+				if st, ok := ref.(*ssa.Store); ok && st.Val == ssa.Value(x) {
+					if fv := fieldVarOf(st.Addr); fv != nil {
+						return fv
+					}
+				}
+			}
+		}
+	case *ssa.Phi:
+		for _, e := range x.Edges {
+			if fv := chanFieldOf(e); fv != nil {
+				return fv
+			}
+		}
+	case *ssa.ChangeType:
+		return chanFieldOf(x.X)
+	}
+	return nil
+}
+
+// ruleSharedWaitsAreBroadcast (round 10): a channel published in a struct field can be waited on by any number of callers.
+// Waiters that block in a plain receive (no select with a way out) are released together only by close(); a send
+// releases exactly one of them and the others wait for ever ("coalescing" N concurrent flush calls onto one in-flight
+// flush and signalling completion with `done <- struct{}{}`). A plain receive on a field-published channel therefore
+// needs a close() of that channel somewhere — unless the function itself sent on it before (a semaphore: acquire by
+// send, release by receive).
+func ruleSharedWaitsAreBroadcast(c *Ctx, r *Reporter) {
+	r.Rule("shared-waits-are-released-by-close", 0)
+	closed := map[*types.Var]bool{}
+	for _, fn := range c.KevoFns {
+		AllInstrs(fn, false, func(_ *ssa.Function, ins ssa.Instruction) {
+			if call, ok := ins.(ssa.CallInstruction); ok {
+				if b, isB := call.Common().Value.(*ssa.Builtin); isB && b.Name() == "close" && len(call.Common().Args) == 1 {
+					if fv := chanFieldOf(call.Common().Args[0]); fv != nil {
+						closed[fv] = true
+					}
+				}
+			}
+		})
+	}
+	n := 0
+	for _, fn := range c.KevoFns {
+		if !strings.HasPrefix(pkgOf(fn), "pkg/") {
+			continue
+		}
+		// semaphore use: the same call sent on the channel before it receives (acquire by send, release by receive);
+		// for a receive inside a closure (a deferred release) a send anywhere in the enclosing function counts
+		sends := map[*types.Var][]ssa.Instruction{}
+		AllInstrs(topParent(fn), true, func(_ *ssa.Function, ins ssa.Instruction) {
+			switch x := ins.(type) {
+			case *ssa.Send:
+				if fv := chanFieldOf(x.Chan); fv != nil {
+					sends[fv] = append(sends[fv], ins)
+				}
+			case *ssa.Select:
+				for _, st := range x.States {
+					if st.Dir == types.SendOnly {
+						if fv := chanFieldOf(st.Chan); fv != nil {
+							sends[fv] = append(sends[fv], ins)
+						}
+					}
+				}
+			}
+		})
+		AllInstrs(fn, false, func(_ *ssa.Function, ins ssa.Instruction) {
+			u, ok := ins.(*ssa.UnOp)
+			if !ok || u.Op != token.ARROW {
+				return
+			}
+			fv := chanFieldOf(u.X)
+			if fv == nil {
+				return
+			}
+			for _, sd := range sends[fv] {
+				if sd.Parent() != fn || Dominates(sd, ins) {
+					return
+				}
+			}
+			if tc, ok := fv.Type().Underlying().(*types.Chan); !ok || tc.Dir() == types.RecvOnly {
+				return
+			}
+			// a data channel drained by one consumer is not a wait of many: only signal channels (no payload) are judged
+			if tc := fv.Type().Underlying().(*types.Chan); !strings.HasPrefix(tc.Elem().String(), "struct{}") && tc.Elem().String() != "bool" {
+				return
+			}
+			n++
+			cons := FnName(fn) + ":<-" + fv.Name()
+			r.Check(closed[fv], cons, c.InsPos(ins), "the channel waited on is released by close()",
+				"a plain receive waits on a channel published in the field "+fv.Name()+", and nothing ever closes that channel: completion is signalled by a send, which releases ONE waiter — with several callers waiting for the same event all but one block for ever")
+		})
+	}
+	if n == 0 {
+		r.Info("shared signal channels", "-", "no plain receive on a field-published signal channel")
+	}
+}
+
+// ruleNoCapOnLocatorSize (round 10): the third place where "a sanity cap" on the block size can be put — any function of
+// the table reader that branches on a comparison of a block locator's Size with a constant. The writer cuts a block
+// after the entry that crosses the target size, so a block is as large as the largest value; a reader that refuses a
+// "too large" block makes the iterator go invalid silently (no error path is looked at), and the key and everything
+// behind it vanish from scans and seeks.
+func ruleNoCapOnLocatorSize(c *Ctx, r *Reporter) {
+	r.Rule("fetcher-accepts-every-block-size", 1)
+	isLocSize := func(v ssa.Value) bool {
+		v = stripNumConv(v)
+		var fv *types.Var
+		switch x := v.(type) {
+		case *ssa.Field:
+			fv = fieldVarOf(x)
+		case *ssa.UnOp:
+			if x.Op == token.MUL {
+				fv = fieldVarOf(x.X)
+			}
+		}
+		return fv != nil && fv.Name() == "Size" && fv.Pkg() != nil && strings.HasSuffix(fv.Pkg().Path(), "pkg/sstable")
+	}
+	var bad ssa.Instruction
+	var badFn *ssa.Function
+	for _, fn := range c.KevoFns {
+		if pkgOf(fn) != "pkg/sstable" {
+			continue
+		}
+		AllInstrs(fn, false, func(_ *ssa.Function, ins ssa.Instruction) {
+			iff, ok := ins.(*ssa.If)
+			if !ok {
+				return
+			}
+			var has func(v ssa.Value, d int) bool
+			has = func(v ssa.Value, d int) bool {
+				if d > 3 {
+					return false
+				}
+				switch x := v.(type) {
+				case *ssa.BinOp:
+					switch x.Op {
+					case token.GTR, token.GEQ, token.LSS, token.LEQ:
+						a, b := x.X, x.Y
+						if _, isK := constInt(a); isK {
+							a, b = b, a
+						}
+						if k, isK := constInt(b); isK && k > 1 && k < 1<<32-1 && isLocSize(a) {
+							return true
+						}
+					}
+				case *ssa.UnOp:
+					return has(x.X, d+1)
+				case *ssa.Phi:
+					for _, e := range x.Edges {
+						if has(e, d+1) {
+							return true
+						}
+					}
+				}
+				return false
+			}
+			if has(iff.Cond, 0) {
+				bad, badFn = ins, fn
+			}
+		})
+	}
+	if bad != nil {
+		r.Bad("sstable."+badFn.Name()+":locator-size-cap", c.InsPos(bad), "a function of the table reader branches on a comparison of a block locator's size with a constant: the writer produces blocks as large as the largest value, so a block above the cap is written and then refused at read time — the table iterator goes invalid without an error anyone looks at, and the key and everything behind it disappear from scans and seeks")
+		return
+	}
+	r.OK("sstable:locator-size-cap", "-", "no function of the table reader compares a block locator's size with a constant")
+}
+
+// ruleLoaderLoadsEveryTable (round 10): opening a database loads every *.sst file of the table directory; a file that is
+// skipped is data that silently stops existing (its keys read as not found, or as an older version). In the directory
+// loop of storage.Manager.loadSSTables the only entries passed over are directories and files with another extension:
+// every other iteration appends a reader to the table list or ends the function with the error. (Compactions number
+// their outputs from 1 and write to levels the configuration does not bound, so "a duplicate number" or "a level that is
+// not configured" are not strays.)
+func ruleLoaderLoadsEveryTable(c *Ctx, r *Reporter) {
+	r.Rule("loader-loads-every-table-file", 1)
+	fn := c.Func("pkg/engine/storage", "Manager", "loadSSTables")
+	tabs := c.Field("pkg/engine/storage", "Manager", "sstables")
+	cons := "storage.Manager.loadSSTables:directory-loop"
+	if fn == nil || tabs == nil {
+		r.Unresolved("storage.Manager.loadSSTables / Manager.sstables", "not found")
+		return
+	}
+	var loop *RangeLoop
+	for _, l := range RangeLoops(fn) {
+		if l.Slice == nil {
+			continue
+		}
+		if ex, ok := l.Slice.(*ssa.Extract); ok {
+			if call, ok := ex.Tuple.(*ssa.Call); ok && staticName(call) == "os.ReadDir" {
+				loop = l
+			}
+		}
+	}
+	if loop == nil {
+		r.Undecided(cons, c.FnPos(fn), "no range loop over the directory listing found")
+		return
+	}
+	filtered := func(cond ssa.Value) (bool, bool) { // edges on which the entry is a directory or not a table file
+		switch x := cond.(type) {
+		case *ssa.Call:
+			if x.Call.IsInvoke() && x.Call.Method.Name() == "IsDir" {
+				return true, false
+			}
+		case *ssa.BinOp:
+			for _, pair := range [][2]ssa.Value{{x.X, x.Y}, {x.Y, x.X}} {
+				if call, ok := pair[0].(*ssa.Call); ok && staticName(call) == "path/filepath.Ext" {
+					if _, isS := constString(pair[1]); isS {
+						switch x.Op {
+						case token.NEQ:
+							return true, false
+						case token.EQL:
+							return false, true
+						}
+					}
+				}
+			}
+		}
+		return false, false
+	}
+	appended := func(i ssa.Instruction) bool {
+		if st, ok := i.(*ssa.Store); ok && fieldVarOf(st.Addr) == tabs {
+			if call, ok := st.Val.(*ssa.Call); ok {
+				if b, isB := call.Call.Value.(*ssa.Builtin); isB && b.Name() == "append" {
+					return true
+				}
+			}
+		}
+		return false
+	}
+	bad, path := loop.IterationMustPass(appended, PruneFactEdges(filtered))
+	if bad != nil {
+		r.Bad(cons, c.blockPos(loop.Body), "an iteration over a *.sst file of the table directory can go on to the next file without appending a reader to the table list (and without failing the open): the file's data is left out of the database — keys whose only or newest version is in it read as not found or as an older value after the reopen", c.PathString(path)...)
+		return
+	}
+	r.OK(cons, c.blockPos(loop.Body), "every *.sst entry is opened and appended, or the open fails")
+}
+
+// ruleMemTablePutAlwaysInserts (round 10): the memtable is multi-version — every accepted write becomes a new entry. A Put or
+// Delete that returns without inserting, for any reason other than the table being immutable, drops an acknowledged
+// write that is already in the log ("the value is unchanged": a tombstone's nil equals the empty value; "the key is not
+// there": its only copy is in a table file).
+func ruleMemTablePutAlwaysInserts(c *Ctx, r *Reporter) {
+	r.Rule("memtable-writes-always-insert", 2)
+	imm := c.Func("pkg/memtable", "MemTable", "IsImmutable")
+	for _, name := range []string{"Put", "Delete"} {
+		fn := c.Func("pkg/memtable", "MemTable", name)
+		cons := "memtable.MemTable." + name
+		if fn == nil {
+			r.Unresolved(cons, "not found")
+			continue
+		}
+		immutable := func(cond ssa.Value) (bool, bool) {
+			if call, ok := cond.(*ssa.Call); ok && imm != nil && call.Call.StaticCallee() == imm {
+				return true, false
+			}
+			if u, ok := cond.(*ssa.UnOp); ok && u.Op == token.MUL {
+				if fv := fieldVarOf(u.X); fv != nil && strings.Contains(strings.ToLower(fv.Name()), "immutable") {
+					return true, false
+				}
+			}
+			if call, ok := cond.(*ssa.Call); ok {
+				if f := call.Call.StaticCallee(); f != nil && f.Name() == "Load" && len(call.Call.Args) > 0 {
+					if fv := fieldVarOf(call.Call.Args[0]); fv != nil && strings.Contains(strings.ToLower(fv.Name()), "immutable") {
+						return true, false
+					}
+				}
+			}
+			return false, false
+		}
+		var rets []ssa.Instruction
+		for _, ret := range Returns(fn) {
+			rets = append(rets, ret)
+		}
+		bad, path := MustPassE(fn, rets, func(i ssa.Instruction) bool {
+			call, ok := i.(*ssa.Call)
+			return ok && call.Call.StaticCallee() != nil && call.Call.StaticCallee().Name() == "Insert" && recvTypeName(call.Call.StaticCallee()) == "memtable.SkipList"
+		}, PruneFactEdges(immutable))
+		if bad != nil {
+			r.Bad(cons, c.InsPos(bad), "the memtable's "+name+" can return without inserting an entry although the table is mutable: the write is in the log and acknowledged but not in the table — a 'value unchanged' shortcut, for one, drops the put of an empty value onto a deleted key (a tombstone's nil equals the empty value), and the key stays deleted through flush and reopen", c.PathString(path)...)
+			continue
+		}
+		r.OK(cons, c.FnPos(fn), "the only way past the insert is 'the table is immutable'")
+	}
+}
+
+// ruleFacadeErrorMeansNoEffect (round 10): a write that reports an error took no effect. Once the storage layer has accepted
+// a Put/Delete (its error is nil) the facade has nothing left to fail on: no failing exit is reachable behind the
+// success edge of the storage call (a read-back "verification" races with the next writer of the same key and reports
+// an error for a write that was applied and seen).
+func ruleFacadeErrorMeansNoEffect(c *Ctx, r *Reporter) {
+	r.Rule("facade-write-fails-only-if-storage-refused", 2)
+	for _, name := range []string{"Put", "Delete"} {
+		fn := c.Func("pkg/engine", "EngineFacade", name)
+		cons := "engine.EngineFacade." + name
+		if fn == nil {
+			r.Unresolved(cons, "not found")
+			continue
+		}
+		var st *ssa.Call
+		AllInstrs(fn, false, func(_ *ssa.Function, ins ssa.Instruction) {
+			if call, ok := ins.(*ssa.Call); ok && call.Call.IsInvoke() && call.Call.Method.Name() == name && strings.HasSuffix(call.Call.Value.Type().String(), "interfaces.StorageManager") {
+				st = call
+			}
+		})
+		if st == nil {
+			r.Undecided(cons, c.FnPos(fn), "no call of storage."+name+" found")
+			continue
+		}
+		okF := callOKFactFor(st)
+		failedF := func(cond ssa.Value) (bool, bool) {
+			t, f := okF(cond)
+			return f, t
+		}
+		var bad ssa.Instruction
+		k := errResultIndex(fn)
+		for _, ret := range Returns(fn) {
+			if ClassifyReturn(ret) == ExitFailure && GuardedBy(ret.Block(), okF) {
+				bad = ret
+			}
+			if k < 0 || k >= len(ret.Results) {
+				continue
+			}
+			// an error made after the storage call that is not the storage call's own (nor a wrapping of it on its failure edge)
+			seen := map[ssa.Value]bool{}
+			var walk func(v ssa.Value, d int)
+			walk = func(v ssa.Value, d int) {
+				if d > 6 || seen[v] {
+					return
+				}
+				seen[v] = true
+				switch x := v.(type) {
+				case *ssa.Phi:
+					for _, e := range x.Edges {
+						walk(e, d+1)
+					}
+				case *ssa.MakeInterface:
+					walk(x.X, d+1)
+				case *ssa.Call:
+					if x == st || !Dominates(st, x) {
+						return
+					}
+					if !GuardedBy(x.Block(), failedF) {
+						bad = x
+					}
+				}
+			}
+			walk(ReturnValue(ret, k), 0)
+		}
+		if bad != nil {
+			r.Bad(cons, c.InsPos(bad), name+" can report an error although the storage layer accepted the write: the write is in the log and visible to readers, and the caller is told it failed")
+			continue
+		}
+		r.OK(cons, c.FnPos(fn), "no failing exit behind the success edge of storage."+name)
+	}
+}
+
+// ruleRetentionCallers (round 10): wal.ManageRetention deletes closed log segments. The sequence counter, the unflushed
+// tail after a crash and a replica's catch-up are all recovered from those segments, so who may delete them is a
+// reviewed set: the replication primary (bounded by what every replica has acknowledged). A new caller — "prune what
+// was flushed" — removes the only record of the highest sequence number: after the next restart the counter restarts at 1.
+func ruleRetentionCallers(c *Ctx, r *Reporter) {
+	r.Rule("log-segments-deleted-only-by-reviewed-callers", 1)
+	mr := c.Func("pkg/wal", "WAL", "ManageRetention")
+	if mr == nil {
+		r.Unresolved("wal.WAL.ManageRetention", "not found")
+		return
+	}
+	reviewed := map[string]string{"replication.Primary.maybeManageWALRetention": "bounded by the minimum acknowledged sequence of the connected replicas"}
+	n := 0
+	for _, e := range c.Callers(mr) {
+		if e.Site == nil || !c.InKevo(e.Caller.Func) {
+			continue
+		}
+		n++
+		caller := FnName(c.siteOwner(topParent(e.Caller.Func)))
+		cons := "wal.WAL.ManageRetention<-" + FnName(topParent(e.Caller.Func))
+		_, ok := reviewed[FnName(topParent(e.Caller.Func))]
+		if !ok {
+			_, ok = reviewed[caller]
+		}
+		r.Check(ok, cons, c.InsPos(e.Site), "reviewed caller: "+reviewed[FnName(topParent(e.Caller.Func))],
+			"closed log segments are deleted from a caller outside the reviewed set: the segments are the only record of the highest sequence number (tables are not consulted at recovery), of the unflushed tail and of what a lagging replica still needs — pruning 'what was flushed' makes the counter restart at 1 after the next restart with no write in between")
+	}
+	if n == 0 {
+		r.Info("wal.WAL.ManageRetention", c.FnPos(mr), "no caller in the module")
 	}
 }
